@@ -114,10 +114,27 @@ class Prop(common.PropertyCheck):
     def model_request(self, case, impl):
         if case['k'] == 'reload':
             return None
-        return {'op': 'load', 'file': impl['file']}
+        s = case['spec']
+        reqs = [{'op': 'load', 'file': impl['file']}]
+        if not s.get('malformed'):
+            # the encoder of the theorems (Lean encodeEvents) must be the writer whose files are tested
+            w = s['widths']
+            reqs.append({'op': 'encode_events', 'be': s['byteord'] in ('4,3,2,1', '2,1'), 'widths': w, 'events': s['events']})
+        return reqs
 
     def compare(self, case, impl, model):
-        return compare_load(self, impl, model)
+        msg = compare_load(self, impl, model[0])
+        if msg:
+            return msg
+        if len(model) > 1:
+            s = case['spec']
+            want = list(fcswriter.encode_events(s['events'], s['datatype'], s['widths'], s['byteord']))
+            if model[1].get('bytes') != want:
+                return 'Lean encodeEvents and the Python writer disagree on the DATA bytes'
+            data = bytes(impl['file'])
+            if bytes(want) not in data:
+                return 'DATA bytes not found in the written file'
+        return None
 
     def nontrivial_key(self, case, impl):
         s = case['spec']
